@@ -169,11 +169,19 @@ def _put_death(self, pid, exitcode, timeout=1.0):
     wlock = getattr(outq, '_wlock', None)
     if wlock is None:
         return outq.put((DEATH, (pid, exitcode)))
-    if wlock.acquire(True, timeout):
-        try:
-            outq._writer.send_bytes(ForkingPickler.dumps((DEATH, (pid, exitcode))))
-        finally:
-            wlock.release()'''
+    sigmask = getattr(signal, 'pthread_sigmask', None)
+    blocked = None
+    if sigmask is not None:
+        blocked = sigmask(signal.SIG_BLOCK, [TERM_SIGNAL])
+    try:
+        if wlock.acquire(True, timeout):
+            try:
+                outq._writer.send_bytes(ForkingPickler.dumps((DEATH, (pid, exitcode))))
+            finally:
+                wlock.release()
+    finally:
+        if blocked is not None:
+            sigmask(signal.SIG_SETMASK, blocked)'''
 
 CONSTS = ['ACK', 'READY', 'TASK', 'NACK', 'DEATH', 'EX_OK', 'EX_FAILURE', 'EX_RECYCLE',
           'GUARANTEE_MESSAGE_CONSUMPTION_RETRY_LIMIT']
